@@ -105,7 +105,7 @@ EnterWith(t, kind, sup, sid) ==
                                                  sms |-> ms[t], stg |-> tg[t], sid |-> sid])]
   /\ st' = [st EXCEPT ![t] = IF Bug = "first_wins" THEN MergeFirst(@, sup) ELSE Merge(@, sup)]
   /\ on' = [on EXCEPT ![t] = TRUE]
-  /\ ms' = [ms EXCEPT ![t] = IF kind = "update" THEN @ ELSE sid]
+  /\ ms' = [ms EXCEPT ![t] = IF kind \in {"update", "gen"} THEN @ ELSE sid]
   /\ tg' = [tg EXCEPT ![t] = IF kind = "ascope" THEN sid ELSE @]
 
 Enter(t, kind, direct, disp) ==
@@ -136,6 +136,24 @@ EnterPrepared(t) ==
        ELSE EnterWith(t, prep.kind, prep.sup, prep.sid)
   /\ prep' = [prep EXCEPT !.st = "used"]
   /\ UNCHANGED <<base, pc, grp, caught, nsid>>
+  /\ Observe
+
+(* a state update held open by a GENERATOR (`with ctx.updated(...): yield`) that task t has advanced to its first yield:
+   for t this is an update like any other (t leaves it by closing the generator).  If ANOTHER task u closes the generator
+   the update's exit runs in u's context, where it was never entered: that is refused and u's context stays what it was
+   (the behaviour ends there: what becomes of the misused generator's owner is not the library's affair). *)
+GenEnter(t, sup) ==
+  /\ Prep /\ Op(t) /\ prep.st = "none" /\ Len(frames[t]) < MaxDepth
+  /\ EnterWith(t, "gen", sup, 0)
+  /\ prep' = [st |-> "used", kind |-> "gen", sup |-> sup, sid |-> t]
+  /\ UNCHANGED <<base, pc, grp, caught, nsid>>
+  /\ Observe
+
+GenCloseForeign(u) ==
+  /\ Prep /\ nops < MaxOps /\ nops' = MaxOps /\ pc[u] = "gate" /\ actor' = u
+  /\ prep.kind = "gen" /\ prep.sid # u /\ \E i \in DOMAIN frames[prep.sid] : frames[prep.sid][i].kind = "gen"
+  /\ caught' = [caught EXCEPT ![u] = "refused"]
+  /\ UNCHANGED <<st, on, ms, tg, frames, base, pc, grp, prep, nsid>>
   /\ Observe
 
 (* a second attempt to enter the same async scope object - while it is still open, or after it was left - is refused
@@ -214,6 +232,7 @@ Next == \E t \in Tasks :
                     Enter(t, kind, SubSeq(sup, 1, k), SubSeq(sup, k + 1, Len(sup)))
           \/ \E kind \in {"ascope", "sscope", "update"}, sup \in {x \in Sups : Len(x) <= 1} : Prepare(t, kind, sup)
           \/ EnterPrepared(t) \/ ReEnter(t)
+          \/ (\E sup \in {x \in Sups : Len(x) = 1} : GenEnter(t, sup)) \/ GenCloseForeign(t)
           \/ Leave(t) \/ End(t) \/ Try(t) \/ \E o \in {"E", "BaseE"} : Raise(t, o)
           \/ \E u \in Tasks, how \in {"spawn", "plain"} : Start(t, u, how)
 Spec == Init /\ [][Next]_vars
